@@ -173,6 +173,22 @@ fn check_pow10(k: u64) -> Vec<Violation> {
         }
         Err(e) => out.push(v("with_scale (power of ten)", "panic", case("3e+k .with_scale(0)"), "3*10^k".into(), e)),
     }
+    // precision extension / identity on the neighbours of the power of ten (with_prec has to know their digit count)
+    if k >= 1 {
+        for (name, n, digits) in [("10^k-1", &p - 1, k), ("10^k+1", &p + 1, k + 1), ("-(10^k-1)", BigInt::from(1) - &p, k)] {
+            for (what, prec, ext) in [("with_prec(own digits)", digits, 0u64), ("with_prec(own digits + 3)", digits + 3, 3)] {
+                let want = Dec { n: &n * pow10(ext), s: 2 + ext as i128 };
+                match guard(|| BigDecimal::new(n.clone(), 2).with_prec(prec)) {
+                    Ok(b) if dec(&b) == want => {}
+                    Ok(b) => {
+                        let d = dec(&b);
+                        out.push(v("with_prec (next to a power of ten)", "wrong_value", case(&format!("{} {}", name, what)), format!("{} digits, scale {}", digits + ext, want.s), format!("{} digits, scale {}", ndigits(&d.n), d.s)).attr("k", k))
+                    }
+                    Err(e) => out.push(v("with_prec (next to a power of ten)", "panic", case(&format!("{} {}", name, what)), "the same digits".into(), e)),
+                }
+            }
+        }
+    }
     for (name, n, want) in [("10^k", p.clone(), k + 1), ("10^k-1", &p - 1, k.max(1)), ("10^k+1", &p + 1, k + 1), ("-(10^k)", -p.clone(), k + 1)] {
         for scale in [0i64, 3] {
             let got = guard(|| {
@@ -262,7 +278,7 @@ fn main() {
     run.par("S1 powers of ten 10^k, 10^k-1, 10^k+1", (kmax + 1) as usize, |k| {
         let mut t = Tally::default();
         t.states += 3;
-        t.transitions += 11;
+        t.transitions += 17;
         t.nontrivial += 3;
         for viol in check_pow10(k as u64) {
             run.report(viol);
